@@ -147,6 +147,14 @@ def dag(draw, *, max_nodes=12, leaf_profile='plain', kinds=None, p_alias=0.55,
               'pos': pos, 'kw': kw, 'edits': []}
       if tags and draw(st.booleans()):
         node['tags'] = [[draw(st.sampled_from([0, 1, 'a'])), draw(st.sampled_from(['TagA', 'TagB', 'TagX']))]]
+    elif kind == 'Bpo3':
+      # required positional-only parameter followed by defaulted positional-only ones
+      pos = [ref()]
+      for d in ['d_p1', 'd_p2'][: draw(st.integers(0, 2))]:
+        pos.append({'leaf': d} if draw(st.booleans()) else ref())
+      kw = {'a': ref()} if draw(st.booleans()) else {}
+      node = {'k': 'B', 'bt': draw(st.sampled_from(list(bts))), 'fn': {'kind': 'sym', 'name': 'things:po3'},
+              'pos': pos, 'kw': kw, 'edits': []}
     elif kind == 'Bdc':
       kw = {}
       for pn in ('u', 'v', 'w'):
